@@ -51,6 +51,7 @@ class FakeGH:
         self.statuses = {}      # commit sha -> {context name: (required, raw state, typename)}
         self.reject_merges = 0
         self.fail_refreshes = 0     # the next n `getitem(refs/heads/…)` raise
+        self.fail_graphql = None    # j: in the next refresh the GraphQL query of the j-th listed PR raises gidgethub.HTTPException
         self.fail_posts = 0         # the next n status posts raise gidgethub.HTTPException (caught by post_github_status)
         self.merge_log = []
         self.order_desc = False
@@ -112,6 +113,14 @@ class FakeGH:
         n = int(re.search(r'pullRequest \(number: (\d+)\)', q).group(1))
         after = re.search(r'after: "(\d+)"', q)
         start = int(after.group(1)) if after else 0
+        order = self.h.rec_gh.setdefault('gq_order', [])
+        if n not in order:
+            order.append(n)
+            if self.fail_graphql is not None and len(order) - 1 == self.fail_graphql:
+                # the GraphQL request for this PR fails with the exception type the real client raises for an HTTP error
+                self.fail_graphql = None
+                self.h.rec_gh['graphql_failed'] = len(order) - 1
+                raise self.h.g.gidgethub.HTTPException()
         p = self.prs[n]
         ctxs = sorted(self.statuses.get(p['head'], {}).items(), key=lambda kv: (kv[0] != CI_CTX, kv[0]))
         if self.h.case.get('ci_last', False):
@@ -296,7 +305,8 @@ class History:
             msgs.append(f'merge of pr {n} which GitHub never reported to CI')
         else:
             if seen['decision'] != 'APPROVED':
-                msgs.append(f'not approved (reviewDecision {seen["decision"]})')
+                msgs.append(f'not approved (reviewDecision {seen["decision"]}'
+                            + ('; GitHub did not answer the query for this PR in CI\'s last refresh, which nevertheless completed' if seen.get('unanswered') else '') + ')')
             if seen['labels'][1] or seen['labels'][2]:
                 msgs.append('labelled do-not-merge (WIP / stacked PR)')
             # other systems' required checks: as GitHub last reported them to CI; the CI's own context: the last state CI sent for the
@@ -409,14 +419,40 @@ class History:
             self.rec_gh = {}
             self.in_block = True
             refresh_start = self.clock
+            self.refresh_raised = False
             try:
                 await o_gh(gh)
+            except BaseException:
+                self.refresh_raised = True
+                raise
             finally:
               r = self.rec_gh
+              self.gh.fail_graphql = None        # a fault that found no PR to hit does not linger
               if r.get('failed'):
                 self.failed_refresh_times.append(refresh_start)
                 self.tags.append('fault:refresh')
-                self.ghfail_pending = True      # dumped once the exception has passed through `_update` (which restores the flag)
+                self.ghfail_pending = 'ghfail'      # dumped once the exception has passed through `_update` (which restores the flag)
+              elif 'graphql_failed' in r and self.refresh_raised:
+                # aborted at the GraphQL query of the j-th PR: target sha and PR list taken over, the first j PRs refreshed
+                j = r['graphql_failed']
+                listing = r.get('listing', [])
+                parts = [f"ghpartial {j} {r.get('target', 0)} {len(listing)}"]
+                self.last_seen_target = r.get('target')
+                old_seen, self.last_seen = self.last_seen, {}
+                for i, (n, head, auth, labels) in enumerate(listing):
+                    gq = r.get('graphql', {}).get(n, {'decision': 'NONE', 'checks': []}) if i < j else {'decision': 'NONE', 'checks': []}
+                    parts.append(f"{n} {head} {1 if auth else 0} {''.join('1' if x else '0' for x in labels)} {gq['decision']} {len(gq['checks'])}")
+                    parts += [f"{c} {1 if req else 0} {raw}" for (c, req, raw) in gq['checks']]
+                    if i < j:
+                        self.last_seen[n] = {'head': head, 'labels': labels, 'decision': gq['decision'], 'checks': gq['checks']}
+                    else:
+                        o = old_seen.get(n)
+                        keep = o is not None and o['head'] == head
+                        self.last_seen[n] = {'head': head, 'labels': labels, 'decision': o['decision'] if keep else 'NONE',
+                                             'checks': o['checks'] if keep else []}
+                self.failed_refresh_times.append(refresh_start)
+                self.tags.append('fault:graphql')
+                self.ghfail_pending = ' '.join(parts)
               else:
                 listing = r.get('listing', [])
                 parts = [f"gh {r.get('target', 0)} {len(listing)}"]
@@ -430,6 +466,10 @@ class History:
                     parts.append(f"{n} {head} {1 if auth else 0} {''.join('1' if x else '0' for x in labels)} {gq['decision']} {len(gq['checks'])}")
                     parts += [f"{c} {1 if req else 0} {raw}" for (c, req, raw) in gq['checks']]
                     self.last_seen[n] = {'head': head, 'labels': labels, 'decision': gq['decision'], 'checks': gq['checks']}
+                    if n not in r.get('graphql', {}) and n in self.gh.prs:
+                        # the refresh "completed" although GitHub did not answer for this PR: judge by what GitHub would have said
+                        self.last_seen[n]['decision'] = self.gh.prs[n]['decision']
+                        self.last_seen[n]['unanswered'] = True
                 self.tags.append('ev:gh')
                 self.emit(' '.join(parts))
                 await self.end_block()
@@ -526,6 +566,8 @@ class History:
             gh.fail_posts += 1
         elif t == 'fault_batch':
             self.bc.fail_lists += 1
+        elif t == 'fault_graphql':
+            gh.fail_graphql = op[1]
         elif t in ('notify_gh', 'notify_batch', 'update'):
             wb = self.wb
             f = {'notify_gh': wb.notify_github_changed, 'notify_batch': wb.notify_batch_changed, 'update': wb.update}[t]
@@ -556,11 +598,11 @@ class History:
                 self.mid = [tuple(x) for x in (op[1] if len(op) > 1 else [])]
             try:
                 await f(self.db, self.bc, gh, False)
-            except (AssertionError, FaultInjected):
+            except (AssertionError, FaultInjected, self.g.gidgethub.HTTPException):
                 pass      # what the webhook handler / update_loop see (logged, 500); the flags stay as the aborted pass left them
             if getattr(self, 'ghfail_pending', False):
-                self.ghfail_pending = False
-                self.emit('ghfail')
+                line, self.ghfail_pending = self.ghfail_pending, False
+                self.emit(line)
                 # entry points that were called while the failed refresh was in flight only set their flags (`updating` was True):
                 # perform them now under the same condition
                 wb.updating = True
@@ -659,7 +701,7 @@ class C30(Prop):
     budget = {'quick': 500, 'thorough': 8000}
     search_budget = {'quick': 600, 'thorough': 8000}
     rule = ('case = history of world events (open/push/close PR, review decision, labels, status of an external check, target-branch push, '
-            'batch completion, scripted checkout failure / merge rejection / failing GitHub refresh / failing status post / failing batch listing) and CI entry points (github webhook, batch callback, periodic '
+            'batch completion, scripted checkout failure / merge rejection / failing GitHub refresh (branch ref or the GraphQL query of one PR) / failing status post / failing batch listing) and CI entry points (github webhook, batch callback, periodic '
             'update), optionally with world events applied at the k-th API call inside an update; head shas from a small pool so that PRs can '
             'share a head; non-trivial = at least one merge request or a fired is_mergeable assertion; distinct by the trace of event outputs')
     trusted = ['fake GitHub (REST refs/pulls/statuses/merge + GraphQL reviewDecision/statusCheckRollup with pagination) and fake batch client '
@@ -808,6 +850,8 @@ class C30(Prop):
                 return ['fault_post']
             if r < 0.99:
                 return ['fault_batch']
+            if r < 0.995:
+                return ['fault_graphql', rng.randint(0, 2)]
             if r < 0.985:
                 open_prs.remove(n)
                 return ['close', n]
@@ -861,6 +905,28 @@ class C30(Prop):
             ops.append(['notify_batch', []])
         ops += [['notify_gh', []], ['done', 0, 1], ['notify_batch', []], ['update', []]]
         return {'ci_required': rng.random() < 0.7, 'ci_last': False, 'order_desc': False, 'ops': ops}
+
+    def gen_review_during_build(self, rng):
+        """an approved PR whose up-to-date test batch is still running becomes unmergeable on GitHub (changes requested, review
+        dismissed, WIP label); ONE request of the refresh that the webhook triggers fails (the branch ref, or the GraphQL query of one
+        PR); the next events are batch callbacks only"""
+        k = rng.choice([1, 2, 3])
+        ops = [['open', i, 500 + 10 * i, 1, '00000'] for i in range(1, k + 1)]
+        ops += [['review', i, 'APPROVED'] for i in range(1, k + 1)]
+        ops.append(['notify_gh', []])
+        victim = rng.randint(1, k)
+        ops.append(rng.choice([['review', victim, 'CHANGES_REQUESTED'], ['review', victim, 'CHANGES_REQUESTED'], ['review', victim, 'REVIEW_REQUIRED'],
+                               ['labels', victim, '01000']]))
+        desc = bool(rng.random() < 0.3)
+        pos = (k - victim) if desc else (victim - 1)          # position of the victim in the listing
+        ops.append(rng.choice([['fault_graphql', pos], ['fault_graphql', pos], ['fault_graphql', rng.randint(0, k - 1)], ['fault_refresh']]))
+        ops.append(['notify_gh', []])
+        ops += [['done', 0, 1] for _ in range(k)]
+        ops.append(['notify_batch', []])
+        if rng.random() < 0.5:
+            ops.append(['notify_batch', []])
+        ops.append(['update', []])
+        return {'ci_required': rng.random() < 0.7, 'ci_last': False, 'order_desc': desc, 'ops': ops}
 
     def gen_push_after_green(self, rng):
         """the old head was tested green but not merged; the author pushes a new commit (and the PR gets approved); the batch listing
@@ -928,6 +994,8 @@ class C30(Prop):
                 yield self.gen_many_contexts(rng)
             elif i % 8 == 6:
                 yield self.gen_push_after_green(rng)
+            elif i % 8 == 2:
+                yield self.gen_review_during_build(rng)
             elif i % 8 == 5:
                 yield self.gen_mid_refresh(rng)
             elif i % 8 == 3:
